@@ -499,6 +499,10 @@ static Child spawn(const RunSpec& spec)
         ctx.watchdog_s = g_asan ? 60 : 10;
         g_ctx = &ctx;
         seams_init();
+        // plain build: every C++ allocation of the run comes from the private pool (deterministic addresses, immediate
+        // reuse); the ASan build keeps ASan's allocator, whose quarantine is what makes use-after-free visible
+        if (!g_asan)
+            alloc_set_mode(AM_POOL);
         g_on_ceiling = on_ceiling;
         g_on_exit_in_call = on_exit_in_call;
         g_on_traversal = [](int delta) {
